@@ -365,7 +365,21 @@ class LangGen:
                 blank.append(self.elt(b, [pl]))
             rows = [r for r in (self.attrs or []) if ":" not in r[0]]
             blank.append(self.elt(b, [BLANK_BINS[k % len(BLANK_BINS)]], None if not rows else [(rows[0][0], "v")]))
-        return [self.root(kids), self.root(blank)]
+        # a byte array that occurs twice is collected into the string table like any text (collect_strings does not look
+        # at the flag) but is written as OPAQUE both times; the same octets as ordinary text elsewhere ARE cut against
+        # that entry (STR_T); a byte array with a NUL that occurs twice is an entry nothing can reference
+        shared = []
+        nul2 = base64.b64encode(b"ab\x00cdef").decode()
+        for k, b in enumerate(bins[:6]):
+            o = other[k % len(other)]
+            shared.append(self.elt(b, [BINS[1]]))
+            shared.append(self.elt(o, ["abcd"]))
+            shared.append(self.elt(b, [BINS[1]]))
+            shared.append(self.elt(o, ["zz abcd yy"]))
+            shared.append(self.elt(b, [nul2]))
+            shared.append(self.elt(b, [nul2]))
+            shared.append(self.elt(o, ["ab"]))
+        return [self.root(kids), self.root(blank), self.root(shared)]
 
 
 def documents(tj, rng, quick=True, token_root=False):
